@@ -454,7 +454,8 @@ def replay_vsched(ctx, rd, meta):
 # missing or wrong lock is reported by the happens-before detector instead. The baton is invisible to TSan; the
 # modelled mutexes are annotated (harness/vsched). A report = the child exits with TSan's exit code (Died sig 166).
 
-TSAN_ENV = {"TSAN_OPTIONS": "halt_on_error=1:exitcode=66:report_signal_unsafe=0:report_thread_leaks=0:report_destroy_locked=0:history_size=4",
+TSAN_ENV = {"TSAN_OPTIONS": "halt_on_error=1:exitcode=66:report_signal_unsafe=0:report_thread_leaks=0:report_destroy_locked=0:history_size=4"
+                            ":suppressions=" + os.path.join(os.path.dirname(os.path.abspath(__file__)), "tsan.supp"),
             "TZ": "UTC"}
 
 
